@@ -389,6 +389,10 @@ def run_shard(pid, tier, seed, shard, nshards, out, ncases=None):
     if hasattr(mod, "teardown"):
         mod.teardown(mon)
     res = mon.result()
+    from . import layout as _ly
+
+    for how, cnt in _ly.TRAVEL_SEEN.items():  # module objects handed over after deepcopy / pickle / state_dict journeys
+        res.setdefault("stats", {})["module_travel:" + how] = cnt
     res["stopped"] = stopped
     res["wall_s"] = time.time() - t0
     with open(out, "w") as f:
